@@ -29,6 +29,18 @@ UNITS_LOCAL = {"C01": [
          defs=["RKCOMMON_TASKING_INTERNAL", "RKCOMMON_VERIF_SPIN_COUNT=2", "RKCOMMON_VERIF_PIPESIZE_LOG2=1"], mcsched=True, engine="mcsched",
          args={"quick": ["--only-prefix", "pf_T3", "--only-prefix", "spf_T3"], "thorough": ["--only-prefix", "pf_T3", "--only-prefix", "spf_T3"]},
          budget={"quick": 150, "thorough": 1500}, rule="2-slot pipes (hook H2) with a pool of 3 (6 partitions), pipe-full path: " + _RULE, assumptions=_ASSUME),
+    Unit("pfor_internal_tso", ["harness/C01_pfor_mc.cpp"], repo_src=_INT, cxx="g++", flags=TSAN_INSTR,
+         defs=["RKCOMMON_TASKING_INTERNAL", "RKCOMMON_VERIF_SPIN_COUNT=2"], mcsched=True, engine="mcsched",
+         args={"quick": ["--tso-volatile", "--bound", "2", "--only-prefix", "pf_T2_n1", "--only-prefix", "pf_T2_n2", "--only-prefix", "pf_T2_n3", "--only-prefix", "spf_T2_n3"],
+               "thorough": ["--tso-volatile", "--bound", "3", "--only-prefix", "pf_T2", "--only-prefix", "spf_T2", "--only-prefix", "nest_T2_2x2"],
+               "replay": ["--tso-volatile"]},
+         budget={"quick": 200, "thorough": 1500},
+         rule="store buffering also for enkiTS's volatile stores (x86-TSO; holding a store back costs one deviation), pool of 2: " + _RULE, assumptions=_ASSUME),
+    Unit("pipe_tso", ["harness/C01_pipe_mc.cpp"], cxx="g++", flags=TSAN_INSTR, mcsched=True, engine="mcsched",
+         args={"quick": ["--tso-volatile", "--bound", "2"], "thorough": ["--tso-volatile", "--bound", "3"], "replay": ["--tso-volatile"]},
+         budget={"quick": 150, "thorough": 900},
+         rule="the lock-less pipe driven directly with store buffering for its volatile stores (x86-TSO): one writer against 1-2 readers, every schedule with <= d deviations",
+         assumptions=_ASSUME),
     Unit("pipe", ["harness/C01_pipe_mc.cpp"], cxx="g++", flags=TSAN_INSTR, mcsched=True, engine="mcsched",
          budget={"quick": 150, "thorough": 900},
          rule="LockLessMultiReadPipe<1|2, Item> driven directly: one writer (3-5 writes, one read-front) against 1-2 readers (2-3 read-backs each), then drained; every schedule with <= d deviations",
